@@ -36,6 +36,13 @@ FAMILIES = {
     "sha256_crypt": (1000, 2500), "sha512_crypt": (1000, 2500), "md5_crypt": None, "pbkdf2_sha256": (1, 400), "sha1_crypt": (1, 1500), "bsdi_crypt": (1, 301),
     "phpass": (7, 9), "bcrypt": (4, 5), "des_crypt": None, "scrypt": (1, 4), "fshp": (1, 300), "ldap_salted_sha1": None, "ldap_sha256_crypt": (1000, 2500),
     "django_pbkdf2_sha256": (1, 300), "lmhash": None, "unix_disabled": None, "ldap_pbkdf2_sha256": (1, 300), "django_salted_sha1": None,
+    "scram": (1, 60), "django_bcrypt": (4, 5),
+}
+#: hard cost limits of the formats (docs/lib/passlib.hash.*.rst), not read from the hashers
+HARD_LIMITS = {
+    "phpass": (7, 30), "bcrypt": (4, 31), "django_bcrypt": (4, 31), "sha256_crypt": (1000, 999999999), "sha512_crypt": (1000, 999999999), "ldap_sha256_crypt": (1000, 999999999),
+    "pbkdf2_sha256": (1, 4294967295), "ldap_pbkdf2_sha256": (1, 4294967295), "django_pbkdf2_sha256": (1, 4294967295), "sha1_crypt": (1, 4294967295), "bsdi_crypt": (1, 16777215),
+    "scrypt": (1, 31), "fshp": (1, 4294967295), "scram": (1, 4294967295),
 }
 
 
@@ -43,9 +50,10 @@ def base_record(name):
     h = table.handler(name)
     rec = {"min": getattr(h, "min_desired_rounds", None), "max": getattr(h, "max_desired_rounds", None), "default": getattr(h, "default_rounds", None), "vary": getattr(h, "vary_rounds", None)}
     rec["salt_size"] = getattr(h, "default_salt_size", None)
-    rec["ident"] = getattr(h, "default_ident", None)
+    rec["ident"] = getattr(getattr(h, "wrapped", h), "default_ident", None) if hasattr(h, "wrapped") and getattr(h, "default_ident", None) is None else getattr(h, "default_ident", None)
     rec["truncate_error"] = getattr(h, "truncate_error", None)
     rec["extra"] = {k: getattr(h, k, None) for k in ("block_size", "parallelism", "default_variant", "default_marker")}
+    rec["extra"]["algs"] = list(h.default_algs) if getattr(h, "default_algs", None) else None
     return rec
 
 
@@ -100,6 +108,14 @@ def model_derive(name, parent_rec, kw):
                     raise ConfigError(f"{k} too small")
                 v = 1
             rec["extra"][k] = v
+    if "algs" in kw:
+        v = kw["algs"]
+        names = [a.strip() for a in v.split(",")] if isinstance(v, str) else list(v)
+        iana = {"sha1": "sha-1", "sha256": "sha-256", "sha512": "sha-512", "sha224": "sha-224", "sha384": "sha-384"}
+        names = sorted({iana.get(a.lower(), a.lower()) for a in names})
+        if "sha-1" not in names or any(len(a) > 9 for a in names):
+            raise ConfigError("bad algs")  # SCRAM: sha-1 is mandatory, names are limited to 9 characters
+        rec["extra"]["algs"] = names
     if "variant" in kw:
         v = kw["variant"]
         names = {"sha1": 0, "sha256": 1, "sha384": 2, "sha512": 3}
@@ -123,6 +139,7 @@ DOC_IDENT_ALIASES = {"2": "$2$", "2a": "$2a$", "2y": "$2y$", "2b": "$2b$", "P": 
 def norm_ident(h, ident):
     if isinstance(ident, bytes):
         ident = ident.decode("ascii")  # settings are text or ASCII bytes alike
+    h = getattr(h, "wrapped", h)  # a prefix wrapper takes the wrapped format's idents
     vals = list(getattr(h, "ident_values", ()) or ())
     aliases = {k: v for k, v in DOC_IDENT_ALIASES.items() if k in (getattr(h, "ident_aliases", None) or {}) and v in vals}
     if ident in vals:
@@ -147,6 +164,16 @@ def probe(rec, name, node_obj, node_rec, cheap, where, hist, soft):
     h = table.handler(name)
     f = table.T[name]
     fail = lambda bucket, what, obs, exp: rec.fail(f"C09/{bucket}/{name}", what, "history", hist, obs, exp, soft=soft)  # noqa: E731
+    if name in HARD_LIMITS and (node_obj.min_rounds, node_obj.max_rounds) != HARD_LIMITS[name]:
+        fail(f"{where}-hard-limits", f"{where}: the hasher's hard cost limits are not the format's", (node_obj.min_rounds, node_obj.max_rounds), HARD_LIMITS[name])
+        return False
+    for attr in ("django_name", "name"):
+        if hasattr(h, attr) and getattr(node_obj, attr, None) != getattr(h, attr):
+            fail(f"{where}-attribute-lost", f"{where}: the derived hasher lost / changed its {attr}", getattr(node_obj, attr, None), getattr(h, attr))
+            return False
+    if node_rec["extra"].get("algs") and list(getattr(node_obj, "default_algs", [])) != node_rec["extra"]["algs"]:
+        fail(f"{where}-algs-attr", f"{where}: default_algs differs from the model", list(getattr(node_obj, "default_algs", [])), node_rec["extra"]["algs"])
+        return False
     # attributes documented in the PasswordHash API
     if "rounds" in getattr(h, "setting_kwds", ()):
         got = (node_obj.min_desired_rounds, node_obj.max_desired_rounds, node_obj.default_rounds)
@@ -157,8 +184,9 @@ def probe(rec, name, node_obj, node_rec, cheap, where, hist, soft):
     if node_rec["salt_size"] is not None and getattr(node_obj, "default_salt_size", None) != node_rec["salt_size"]:
         fail(f"{where}-salt-size-attr", f"{where}: default_salt_size differs from the model", getattr(node_obj, "default_salt_size", None), node_rec["salt_size"])
         return False
-    if node_rec["ident"] is not None and getattr(node_obj, "default_ident", None) != node_rec["ident"]:
-        fail(f"{where}-ident-attr", f"{where}: default_ident differs from the model", getattr(node_obj, "default_ident", None), node_rec["ident"])
+    ident_holder = node_obj.wrapped if hasattr(node_obj, "wrapped") and getattr(node_obj, "default_ident", None) is None else node_obj
+    if node_rec["ident"] is not None and getattr(ident_holder, "default_ident", None) != node_rec["ident"]:
+        fail(f"{where}-ident-attr", f"{where}: default_ident differs from the model", getattr(ident_holder, "default_ident", None), node_rec["ident"])
         return False
     if node_rec["truncate_error"] is not None and bool(getattr(node_obj, "truncate_error", None)) != bool(node_rec["truncate_error"]):
         fail(f"{where}-truncate-attr", f"{where}: truncate_error differs from the model", getattr(node_obj, "truncate_error", None), node_rec["truncate_error"])
@@ -214,6 +242,9 @@ def probe(rec, name, node_obj, node_rec, cheap, where, hist, soft):
         if node_rec["extra"].get(k) is not None and hasattr(obj, k) and getattr(obj, k) != node_rec["extra"][k]:
             fail(f"{where}-{k}", f"{where}: hash does not carry the configured {k}", getattr(obj, k), node_rec["extra"][k])
             return False
+    if node_rec["extra"].get("algs") and sorted(getattr(obj, "algs", None) or []) != node_rec["extra"]["algs"]:
+        fail(f"{where}-algs", f"{where}: hash does not carry the configured digest list", getattr(obj, "algs", None), node_rec["extra"]["algs"])
+        return False
     if node_rec["extra"].get("default_variant") is not None and hasattr(obj, "variant") and obj.variant != node_rec["extra"]["default_variant"]:
         fail(f"{where}-variant", f"{where}: hash does not carry the configured variant", obj.variant, node_rec["extra"]["default_variant"])
         return False
@@ -298,6 +329,9 @@ def apply_ops(rec, hist, soft=False):
             hs = h.using(**kw).hash("pw", **ctx)
             rr = ctxmodel_parse(name, hs).rounds
             want = bool((nrec["min"] and rr < nrec["min"]) or (nrec["max"] and rr > nrec["max"]) or ctxmodel.scheme_flag(name if name != "ldap_sha256_crypt" else "sha256_crypt", hs))
+            if name == "scram":
+                # documented in the source: a hash lacking one of the configured digests is flagged
+                want = want or not set(ctxmodel_parse(name, hs).algs) >= set(nrec["extra"].get("algs") or [])
             if name == "scrypt":
                 # documented in the source: hashes whose block size / parallelism is not the hasher's configured one are flagged as well
                 po = ctxmodel_parse(name, hs)
@@ -361,8 +395,9 @@ def kw_strategy(name, first):
         lo, hi = h.min_salt_size, h.max_salt_size
         top = hi if hi is not None else 40
         parts["salt_size"] = st.one_of(st.integers(lo, min(top, 40)), st.sampled_from([lo, min(top, 64), lo - 1, top + 1, str(lo)]))
-    if getattr(h, "ident_values", None):
-        good = list(h.ident_values) + list((getattr(h, "ident_aliases", None) or {}).keys())
+    ih = getattr(h, "wrapped", h)
+    if getattr(ih, "ident_values", None):
+        good = list(ih.ident_values) + list((getattr(ih, "ident_aliases", None) or {}).keys())
         good = [g for g in good if "2x" not in g]
         parts["ident"] = st.one_of(st.sampled_from(good), st.sampled_from(good).map(lambda g: g.encode("ascii")), st.sampled_from(["$zz$", "nope"]))
     if "truncate_error" in getattr(h, "setting_kwds", ()):
@@ -372,6 +407,8 @@ def kw_strategy(name, first):
         parts["parallelism"] = st.sampled_from([1, 2, 3, 0, "2", "3"])
     if name == "fshp":
         parts["variant"] = st.sampled_from([0, 1, 2, 3, "sha256", "1", 7, "md5"])
+    if name == "scram":
+        parts["algs"] = st.sampled_from(["sha-1", "sha-256,sha-1", "SHA1,sha256", "sha-1,md5", ["sha-1", "sha-512"], "sha-1,sha-256,sha-512", "sha-256", "sha-1,sha512_256", "md5"])
     if name == "unix_disabled":
         parts["marker"] = st.sampled_from(["!", "*", "!!", "*LK*", "x", ""])
     keys = sorted(parts)
